@@ -66,8 +66,7 @@ Proof. exact search_stops. Qed.
 Print Assumptions c08_stops.
 
 (* 4. count = 0: every provider named locally or in any processed answer is
-   yielded, and with addresses if any mention of it carried addresses... of
-   that entry: an entry with addresses is yielded with addresses. *)
+   yielded, and an entry that carries addresses is yielded with addresses. *)
 Theorem c08_count_zero_complete :
   forall sh locals answers e,
     (forall l, Permutation l (sh l)) ->
